@@ -111,3 +111,26 @@ def complementary_label(struct, rng, alphabet):
         else:
             out[i] = rng.choice(alphabet) + (rng.choice(['', '*']))
     return out
+
+
+def symmetric_complexes():
+    """rotationally symmetric complexes with 4 and 6 strands (period 2 and 3 < number of strands), connected and
+    disconnected, plus periodic strand orders whose structure is NOT symmetric: (names list, structure string)"""
+    out = []
+    units = [(['a', '+', 'a*'], '(+)'), (['a', 'b', '+', 'b*', 'a*'], '((+))'), (['a', 'b', '+', 'b*'], '.(+)'), (['a', '+', 'b'], '.+.')]
+    for names, s in units:
+        for k in (2, 3):
+            nn, ss = [], ''
+            for i in range(k):
+                if i:
+                    nn.append('+'); ss += '+'
+                nn += names; ss += s
+            out.append((nn, ss))
+    # connected, 2-fold symmetric ring of four strands: a b + b* c + c* ... closed cyclically
+    out.append((['a', 'b', '+', 'b*', 'a*', '+', 'a', 'b', '+', 'b*', 'a*'], '((+)(+)(+))'))
+    out.append((['x', 'a', '+', 'a*', 'x', '+', 'x', 'a', '+', 'a*', 'x'], '.(+).+.(+).'))
+    # periodic strand order, asymmetric structure
+    out.append((['a', 'a*', '+', 'a', 'a*'], '(.+.)'))
+    out.append((['a', 'a*', '+', 'a', 'a*', '+', 'a', 'a*', '+', 'a', 'a*'], '(.+.)+..+..'))
+    out.append((['a', '+', 'b', '+', 'a', '+', 'b'], '(+)+.+.'))
+    return out
